@@ -94,6 +94,45 @@ pub fn one_net(b: u64, spec: &NetSpec, lookups: bool) -> Value {
         "panicked": panicked})
 }
 
+/// A joiner behind a SLOW link (round trip above the initial 500 ms request timeout) to a live network: its first attempts time
+/// out, the late answers stretch the adaptive timeout, a later attempt succeeds. Both flavours: an inline node re-populating
+/// on its own while its table is empty, and a threaded node whose caller keeps asking `bootstrapped()`.
+pub fn slow_join(b: u64, seed: u64, one_way_ms: u64, threaded: bool) -> Value {
+    let spec = NetSpec { servers: 3, clients: 0, plan: "private".into(), join: "sequential".into(), dead_bootstrap: 0, seed };
+    let mut net = build(&spec);
+    net.sim.cfg.lat_min_ms = one_way_ms;
+    net.sim.cfg.lat_max_ms = one_way_ms + 20;
+    let ip = node_ip(&spec.plan, 9);
+    let t0 = net.sim.now_ns();
+    let mut attempts = 0u64;
+    let (joined, table, boot_true) = if threaded {
+        let j = net.sim.add_node(NodeOpts::client(ip, &net.boot).threaded());
+        let mut ok = false;
+        while !ok && net.sim.now_ns() - t0 < 60_000 * MS {
+            attempts += 1;
+            let mut bc = net.sim.call_async(j, "bootstrapped", |d| Box::pin(async move { json!(d.bootstrapped().await) }));
+            net.sim.poke(j);
+            net.sim.run_calls(&mut [&mut bc], 30_000);
+            ok = matches!(bc.outcome(), Some(Outcome::Value(v)) if v == &json!(true));
+        }
+        let size = net.sim.snapshot(j).map(|s| s.routing_table.size).unwrap_or(0);
+        (size > 0, size, ok)
+    } else {
+        let j = net.sim.add_node(NodeOpts::client(ip, &net.boot));
+        let mut size = 0;
+        while size == 0 && net.sim.now_ns() - t0 < 60_000 * MS {
+            net.sim.run_for(1000);
+            size = net.sim.snapshot(j).map(|s| s.routing_table.size).unwrap_or(0);
+        }
+        (size > 0, size, size > 0)
+    };
+    let dur = (net.sim.now_ns() - t0) / MS;
+    let panicked = net.sim.nodes.iter().any(|n| n.panicked);
+    net.sim.shutdown();
+    json!({"e":"slowjoin","b":b,"one_way_ms":one_way_ms,"threaded":threaded,"joined":joined,"bootstrapped":boot_true,"table":table,"dur_ms":dur,"attempts":attempts,
+        "spec":{"servers":3,"clients":0,"plan":"private","join":"slow_link","dead_bootstrap":0},"panicked":panicked})
+}
+
 pub fn run(args: &Args) -> i32 {
     let seed = args.u64("seed", 1);
     let thorough = args.thorough();
@@ -139,6 +178,15 @@ pub fn run(args: &Args) -> i32 {
             out.line(&one_net(b, &spec, false));
         }
         b += 1;
+    }
+    // joiners behind slow links (round trips of 0.6 .. 1.5 s)
+    for (i, &ow) in (if thorough { vec![300u64, 350, 400, 500, 600, 750] } else { vec![300u64, 450] }).iter().enumerate() {
+        for threaded in [false, true] {
+            if only.is_none() || only == Some(b) {
+                out.line(&slow_join(b, seed ^ (i as u64 * 17), ow, threaded));
+            }
+            b += 1;
+        }
     }
     out.finish();
     if let Some(p) = args.get("summary") {
